@@ -1,7 +1,10 @@
 package discover
 
 import (
+	"github.com/ethereum/go-ethereum/common/mclock"
+	"github.com/ethereum/go-ethereum/log"
 	"github.com/ethereum/go-ethereum/p2p/enode"
+	"github.com/ethereum/go-ethereum/p2p/netutil"
 )
 
 // Harnesses for C46 (closest-node kernels of the discovery table), package p2p/discover.
@@ -209,4 +212,90 @@ func zzH_C46_lists() {
 	zzAssert(k == len(del), "deleteNode removes every node with the id")
 	zzReach("lists")
 	zzObserve("len", int64(len(del)))
+}
+
+// ---- IP accounting of a bucket: the subnet sets always mirror the bucket's members ----
+
+// zzPublicIP: a symbolic address in 50.0.x.y (public: not loopback, private or link-local), so
+// that members fall into a few /24 ranges.
+func zzPublicIP() [4]byte {
+	c := zzNondetU8()
+	zzAssume(c < 3)
+	return [4]byte{50, 0, c, zzNondetU8()}
+}
+
+// zzSetsMirror: removing every member's address from the bucket's and the table's subnet sets
+// empties them step by step - i.e. the sets count exactly the members, per subnet.
+func zzSetsMirror(tab *Table, b *bucket, label string) {
+	var members []*tableNode
+	members = append(members, b.entries...)
+	members = append(members, b.replacements...)
+	zzAssert(b.ips.Len() == len(members) && tab.ips.Len() == len(members), label+": the subnet sets count exactly the bucket's entries and replacements")
+	for i, m := range members {
+		b.ips.RemoveAddr(m.IPAddr())
+		tab.ips.RemoveAddr(m.IPAddr())
+		zzAssert(b.ips.Len() == len(members)-i-1 && tab.ips.Len() == len(members)-i-1, label+": every member's subnet is counted once per member")
+	}
+}
+
+func zzH_C46_ip_accounting() {
+	self := zzID()
+	tab := zzTable(self)
+	tab.ips = netutil.DistinctNetSet{Subnet: tableSubnet, Limit: tableIPLimit}
+	tab.cfg.Clock = new(mclock.Simulated)
+	tab.cfg.Log = log.Root()
+	tab.log = log.Root()
+	b := tab.buckets[5]
+	b.ips = netutil.DistinctNetSet{Subnet: bucketSubnet, Limit: bucketIPLimit}
+	// members: up to 2 entries and up to 2 replacements with admissible addresses
+	ne, nr := 1+zzChoice(2), zzChoice(3)
+	var ids []enode.ID
+	for i := 0; i < ne+nr; i++ {
+		id := zzID()
+		for _, o := range ids {
+			zzAssume(id != o)
+		}
+		ids = append(ids, id)
+		n := enode.ZZNodeAt(id, zzPublicIP(), 30303, 5)
+		zzAssume(tab.addIP(b, n.IPAddr())) // members respect the limits
+		tn := &tableNode{Node: n}
+		if i < ne {
+			tn.revalList = &tab.revalidation.fast // already scheduled for fast revalidation
+			tab.revalidation.fast.nodes = append(tab.revalidation.fast.nodes, tn)
+			b.entries = append(b.entries, tn)
+		} else {
+			b.replacements = append(b.replacements, tn)
+		}
+	}
+	switch zzChoice(2) {
+	case 0:
+		// an existing entry announces a new endpoint (possibly into a full subnet: refused)
+		old := b.entries[zzChoice(ne)]
+		rec := enode.ZZNodeAt(old.ID(), zzPublicIP(), uint16(zzNondetU16()), zzNondetU64())
+		n, changed := tab.bumpInBucket(b, rec, zzNondetBool())
+		zzAssert(n == old, "the entry is found")
+		if changed {
+			zzAssert(old.Node == rec, "an accepted update replaces the record")
+			zzReach("endpoint-updated")
+		} else {
+			zzReach("endpoint-kept")
+		}
+	default:
+		// a new node is offered as a replacement
+		rec := enode.ZZNodeAt(zzID(), zzPublicIP(), 30303, 1)
+		tab.addReplacement(b, rec)
+		zzReach("replacement-offered")
+	}
+	// limits hold for the members
+	for _, m := range append(append([]*tableNode{}, b.entries...), b.replacements...) {
+		same := 0
+		for _, o := range append(append([]*tableNode{}, b.entries...), b.replacements...) {
+			x, y := m.IPAddr().As4(), o.IPAddr().As4()
+			if x[2] == y[2] {
+				same++
+			}
+		}
+		zzAssert(same <= bucketIPLimit, "at most two members of a bucket share a /24")
+	}
+	zzSetsMirror(tab, b, "after the operation")
 }
